@@ -175,6 +175,17 @@ def library_leaves(B, G):
         for i in range(len(rows)):
             G.eq("%s[%d]" % (tag, i), out[i], ref(i), tol=1e-13)
         G.fact("%s.batch_unchanged" % tag, bool(np.all(B.scalars(samples) == before)), "sample tensor after evaluating the composite")
+    # statistics of a composite over a LARGE batch (4100 rows, not a multiple of any power of two): plain mean / unbiased variance
+    big = [[(i >> j) & 1 for j in range(3)] for i in range(4100)]
+    bz = [x for x in B.scalars(Z.apply(None, C_rows(B, big)))]
+    bn = [x for x in B.scalars(NI.apply(None, C_rows(B, big)))]
+    vals_big = [x + y for x, y in zip(bz, bn)]
+    stb = (Z + NI).statistics_from_samples(None, C_rows(B, big))
+    mean_b = sum(vals_big[1:], vals_big[0]) * O.frac(1, len(big))
+    var_b = sum(((v - mean_b) * (v - mean_b) for v in vals_big[1:]), (vals_big[0] - mean_b) * (vals_big[0] - mean_b)) * O.frac(1, len(big) - 1)
+    G.eq("large_batch.mean", stb["mean"], mean_b)
+    G.eq("large_batch.variance", stb["variance"], var_b)
+    G.fact("large_batch.count", stb["num_samples"] == len(big), stb["num_samples"])
     G.twin("twin_library_leaves", B.scalars((NI + Z).apply(None, C_rows(B, rows)))[0], alone["Z"][0] + alone["NI"][0] + 1)
 
 
